@@ -519,7 +519,7 @@ func run(cfg propCfg, tier string, seed int64) int {
 	fuzzViol := 0
 	var fuzzReplay string
 	if tier == "thorough" && len(cfg.Fuzz) > 0 && len(failures) == 0 && !inconclusive {
-		n, rp, fnotes, finc := runFuzz(cfg, counters)
+		n, rp, fnotes, finc := runFuzz(cfg, bin, counters)
 		fuzzViol, fuzzReplay = n, rp
 		notes = append(notes, fnotes...)
 		inconclusive = inconclusive || finc
@@ -603,48 +603,69 @@ func run(cfg propCfg, tier string, seed int64) int {
 
 // runFuzz runs bounded native fuzz campaigns; a crasher is converted into a
 // violation with the saved input as the replay file.
-func runFuzz(cfg propCfg, counters map[string]int64) (viol int, replayPath string, notes []string, inconclusive bool) {
+func runFuzz(cfg propCfg, bin string, counters map[string]int64) (viol int, replayPath string, notes []string, inconclusive bool) {
 	for _, target := range cfg.Fuzz {
-		ft := cfg.FuzzTime
-		if ft == 0 {
-			ft = 60 * time.Second
-		}
-		cmd := exec.Command("go", "test", "-vet=off", "-tags", "verif", "-run", "^$", "-fuzz", "^"+target+"$",
-			"-fuzztime", ft.String(), "./props")
-		cmd.Dir = verifDir()
-		cmd.Env = append(goEnv(), "VERIF_DIR="+verifDir())
-		out, err := cmd.CombinedOutput()
-		s := string(out)
-		// count execs
-		for _, l := range strings.Split(s, "\n") {
-			if i := strings.Index(l, "execs: "); i >= 0 {
-				f := strings.Fields(l[i+7:])
-				if len(f) > 0 {
-					if n, e := strconv.ParseInt(f[0], 10, 64); e == nil {
-						counters["fuzz_execs_"+target] = n
+		for attempt := 1; attempt <= 2; attempt++ {
+			ft := cfg.FuzzTime
+			if ft == 0 {
+				ft = 60 * time.Second
+			}
+			cmd := exec.Command("go", "test", "-vet=off", "-tags", "verif", "-run", "^$", "-fuzz", "^"+target+"$",
+				"-fuzztime", ft.String(), "./props")
+			cmd.Dir = verifDir()
+			cmd.Env = append(goEnv(), "VERIF_DIR="+verifDir())
+			out, err := cmd.CombinedOutput()
+			s := string(out)
+			// count execs
+			for _, l := range strings.Split(s, "\n") {
+				if i := strings.Index(l, "execs: "); i >= 0 {
+					f := strings.Fields(l[i+7:])
+					if len(f) > 0 {
+						if n, e := strconv.ParseInt(f[0], 10, 64); e == nil {
+							counters["fuzz_execs_"+target] = n
+						}
 					}
 				}
 			}
-		}
-		if err != nil {
-			if i := strings.Index(s, "Failing input written to "); i >= 0 {
-				rest := s[i+len("Failing input written to "):]
-				rest = strings.SplitN(rest, "\n", 2)[0]
-				src := filepath.Join(verifDir(), "props", strings.TrimSpace(rest))
-				dstDir := filepath.Join(verifDir(), "replays")
-				os.MkdirAll(dstDir, 0o755)
-				dst := filepath.Join(dstDir, cfg.ID+"-fuzz-"+target+"-"+filepath.Base(src)+".json")
-				if b, e := os.ReadFile(src); e == nil {
-					os.WriteFile(dst, fuzzCrasherToReplay(cfg.ID, target, b), 0o644)
-					os.Remove(src)
+			if err != nil {
+				if i := strings.Index(s, "Failing input written to "); i >= 0 {
+					rest := s[i+len("Failing input written to "):]
+					rest = strings.SplitN(rest, "\n", 2)[0]
+					src := filepath.Join(verifDir(), "props", strings.TrimSpace(rest))
+					dstDir := filepath.Join(verifDir(), "replays")
+					os.MkdirAll(dstDir, 0o755)
+					dst := filepath.Join(dstDir, cfg.ID+"-fuzz-"+target+"-"+filepath.Base(src)+".json")
+					if b, e := os.ReadFile(src); e == nil {
+						os.WriteFile(dst, fuzzCrasherToReplay(cfg.ID, target, b), 0o644)
+						os.Remove(src)
+					}
+					// A saved input is only a violation if it fails again when replayed alone through the property's
+					// check: on a busy machine the fuzz coordinator declares a starved worker "hung or terminated" and
+					// saves whatever input it was working on.
+					rcmd := exec.Command(bin, "-test.run", "^Test"+cfg.ID+"$", "-test.count", "1", "-test.timeout", "10m")
+					rcmd.Dir = filepath.Join(verifDir(), "props")
+					rcmd.Env = append(os.Environ(), "VERIF_MODE=replay", "VERIF_REPLAY="+dst, "VERIF_DIR="+verifDir())
+					rout, rerr := rcmd.CombinedOutput()
+					rs := string(rout)
+					confirmed := strings.Contains(rs, "REPLAY-FAIL") || strings.Contains(rs, "LIBRARY-CALL-HANG") ||
+						(cfg.DeathIsViolation && rerr != nil && !strings.Contains(rs, "REPLAY-"))
+					if confirmed {
+						viol++
+						replayPath = dst
+						notes = append(notes, "fuzz target "+target+" failed:\n"+tail(s, 40)+"\nreplayed alone:\n"+tail(rs, 20))
+						return
+					}
+					os.Remove(dst)
+					notes = append(notes, fmt.Sprintf("fuzz target %s (attempt %d) reported a failing input that passes when replayed alone (worker starved or killed): not a violation\n%s", target, attempt, tail(s, 8)))
+					if attempt == 2 {
+						inconclusive = true
+					}
+					continue
 				}
-				viol++
-				replayPath = dst
-				notes = append(notes, "fuzz target "+target+" failed:\n"+tail(s, 40))
-				return
+				inconclusive = true
+				notes = append(notes, "fuzz target "+target+" errored without a failing input:\n"+tail(s, 40))
 			}
-			inconclusive = true
-			notes = append(notes, "fuzz target "+target+" errored without a failing input:\n"+tail(s, 40))
+			break
 		}
 	}
 	return
